@@ -7708,7 +7708,9 @@ def _touch_dep_file(path, sym_name):
     # Uses HEADER_TREE_SUFFIX (.cdep based on the esp-idf-configdep tool). See the sync_deps()
     # docstring.
 
-    sym_path = os.path.join(path, sym_name.lower().replace("_", os.sep) + HEADER_TREE_SUFFIX)
+    # Plain concatenation, like the C tools: os.path.join() would drop 'path' for a name with a leading underscore
+    # (_FOO gives the absolute '/foo.cdep')
+    sym_path = os.path.join(path, "") + sym_name.lower().replace("_", os.sep) + HEADER_TREE_SUFFIX
     sym_path_dir = dirname(sym_path)
     if not exists(sym_path_dir):
         os.makedirs(sym_path_dir, 0o755)
